@@ -385,6 +385,24 @@ func runERRPROPFlush(c *Ctx) {
 		} else {
 			c.Violation(fn, P.InstrPos(ret), "Persist.Store error dropped", "a nil-error return is reachable when Persist.Store failed: MakeRoot reports success although a node was not written")
 		}
+		// … and the closure reports success only for a write it has made: every return of a nil error in the function
+		// that holds the store site is reached through the Persist.Store call (adv16-D-a2: "another flush of this
+		// process is uploading this node right now: return nil" — the other upload may still fail, or not be done when
+		// this MakeRoot returns)
+		if ei := ir.ErrorResultIndex(fn.Signature); ei >= 0 {
+			for _, r := range ir.Returns(fn) {
+				if ei >= len(r.Results) || !ir.IsNilConst(r.Results[ei]) {
+					continue
+				}
+				through := ir.FlowHeld(r, func(i ssa.Instruction) bool { return i == ssa.Instruction(call) }, func(ssa.Instruction) bool { return false })
+				if through {
+					c.OK(P.InstrPos(r), "success return of "+ir.FuncName(fn), "reached only through the Persist.Store call", false)
+				} else {
+					c.Violation(fn, P.InstrPos(r), "write closure reports success without having written",
+						"a return of a nil error in "+ir.FuncName(fn)+" is reachable on a path that does not pass the Persist.Store call: the writer reports this node as written on the strength of something else (a memo of uploads in flight, a flag), so MakeRoot can succeed while the node is not — or not yet — in the store")
+				}
+			}
+		}
 	}
 	// flush returns the error of the recursive node store
 	sh := findFlush(c)
@@ -1085,6 +1103,10 @@ func runFLUSHNAME(c *Ctx) {
 		switch {
 		case stored[v]:
 			c.OK(pos, what, "reports the name the node store returned for the root", false)
+		case rootAsName(v):
+			// `if name, persisted := m.root.(string); persisted { return name, nil }`: a root that is a name is the
+			// version the tree was loaded from or last persisted as — the name the node store returned then
+			c.OK(pos, what, "reports the root link itself, which is a name (the tree equals that persisted version)", false)
 		case isEmptyStringConst(v):
 			if why := emptyKnown(r.Block()); why != "" {
 				c.OK(pos, what+" with the empty name", "only under "+why+": the tree has no entries", false)
@@ -1107,4 +1129,21 @@ func isEmptyStringConst(v ssa.Value) bool {
 func flushNodeStore(c *Ctx) *ssa.Function {
 	f, _ := persistingStoreFn(c)
 	return f
+}
+
+// rootAsName: v is the string half of `X.root.(string)` (comma-ok or plain assertion) for a *Mast X.
+func rootAsName(v ssa.Value) bool {
+	v = ir.ResolveCell(v)
+	if ex, ok := v.(*ssa.Extract); ok && ex.Index == 0 {
+		v = ex.Tuple
+	}
+	ta, ok := v.(*ssa.TypeAssert)
+	if !ok {
+		return false
+	}
+	if bt, isB := ta.AssertedType.Underlying().(*types.Basic); !isB || bt.Kind() != types.String {
+		return false
+	}
+	_, isRoot := rootLoad(ta.X)
+	return isRoot
 }
